@@ -691,4 +691,121 @@ def RootEnt.code (n : Nat) : RootEnt → Nat
   | .pos k => k % (4 * n)
   | .neg k => (k + 2 * n) % (4 * n)
 
+/-! ## 10b. `mod1.EvaluateAndScaleNew`: where the scaling goes
+
+  Without arcsine the scaling `s` is folded into the Chebyshev coefficients as `s' = s^(1/2^DoubleAngle)` and the
+  constant of the double-angle steps starts at `sqrt2pi · s'` (it is squared before every step): after `DoubleAngle`
+  steps `y ↦ 2y² − c²` the value `c·t` has become `c^(2^DoubleAngle) · T_{2^DoubleAngle}(t)` — the gain is `s'^(2^DoubleAngle) = s`
+  (`double_angle_scaling` in `Props/C18.lean`). With arcsine the scaling multiplies the arcsine coefficients. Either way the
+  gain of the step is exactly `s`. -/
+
+/-- log2 of the gain of `EvaluateAndScaleNew(ct, 2^k)` over `EvaluateNew(ct)` -/
+def mod1GainLog (_doubleAngle : Nat) (_arcsine : Bool) (k : Int) : Int := k
+
+/-- one double-angle step on (constant, value): `sqrt2pi *= sqrt2pi; y = 2·y·y − sqrt2pi` (over the integers; the
+    identity is polynomial) -/
+def doubleAngleStep (cy : Int × Int) : Int × Int := (cy.1 * cy.1, 2 * (cy.2 * cy.2) - cy.1 * cy.1)
+
+/-- `DoubleAngle` steps -/
+def doubleAngleIter : Nat → Int × Int → Int × Int
+  | 0, cy => cy
+  | k + 1, cy => doubleAngleIter k (doubleAngleStep cy)
+
+/-- `t ↦ 2t² − 1` iterated: `T_{2^k}` -/
+def chebDouble : Nat → Int → Int
+  | 0, t => t
+  | k + 1, t => chebDouble k (2 * (t * t) - 1)
+
+/-! ## 11. `GenMatrices` for every format: doubled diagonals, repacking, bit-reversed layout
+
+  With sparse packing and `RepackImagAsReal` the diagonals have `2·slots` entries (the layer tables are
+  written twice), the first Decode matrix is the repacking matrix times the first layer (indices mod `2·slots`),
+  the last Encode matrix is masked on its right half; with `BitReversed` every block of `slots` entries of the layer
+  tables is bit-reversed and the layer rotations are swapped. Generic in the entry type; the driver instantiates it
+  with `RootSum` (a sum of at most one root) to print the fully split factorisation, tied by `dft_layers`. -/
+
+/-- reversal of the `L` low bits -/
+def revBits : Nat → Nat → Nat
+  | 0, _ => 0
+  | L + 1, x => (x % 2) * 2 ^ L + revBits L (x / 2)
+
+/-- index map of `BitReverseInPlaceSlice(v[blk·2^L : (blk+1)·2^L], 2^L)` applied to every block -/
+def bitRevBlock (L x : Nat) : Nat := (x / 2 ^ L) * 2 ^ L + revBits L (x % 2 ^ L)
+
+/-- products and sums of entries as long as at most one root survives -/
+inductive RootSum | ent (e : RootEnt) | bad
+deriving Repr, DecidableEq
+
+def RootEnt.mul : RootEnt → RootEnt → RootEnt
+  | .zero, _ => .zero
+  | _, .zero => .zero
+  | .pos a, .pos b => .pos (a + b)
+  | .pos a, .neg b => .neg (a + b)
+  | .neg a, .pos b => .neg (a + b)
+  | .neg a, .neg b => .pos (a + b)
+
+instance : Mul RootSum where
+  mul
+    | .ent a, .ent b => .ent (a.mul b)
+    | _, _ => .bad
+
+instance : Add RootSum where
+  add
+    | .ent .zero, y => y
+    | x, .ent .zero => x
+    | _, _ => .bad
+
+/-- the layer at FFT level `lvl` for either layout: tables of `dftLayer`, bit-reversed per block of `2^logSlots`
+    entries when `bitrev`, rotation `2^(lvl-1)` if `Encode ≠ BitReversed` else `2^(logSlots-lvl)`. -/
+def dftLayerBR (encode bitrev : Bool) (logSlots lvl : Nat) : Layer RootEnt :=
+  let l := dftLayer encode logSlots lvl
+  let ix := fun x => if bitrev then bitRevBlock logSlots x else x
+  { rot := if encode != bitrev then 2 ^ (lvl - 1) else 2 ^ (logSlots - lvl)
+    a := fun x => l.a (ix x), b := fun x => l.b (ix x), c := fun x => l.c (ix x) }
+
+/-- `multiplyFFTMatrixWithNextFFTLevel` with index modulus `nidx` (`N` of the Go call) and vectors of length
+    `len` (`rotateAndMulNew` rotates modulo `len(a)`); `mulNextLayer n` is the case `nidx = len = n`. -/
+def mulNextLayer2 {α : Type} [Add α] [Mul α] (nidx len : Nat) (vec : DiagMat α) (l : Layer α) : DiagMat α :=
+  let rot := l.rot % nidx
+  vec.foldl (fun acc iv =>
+    addToDiag
+      (addToDiag
+        (addToDiag acc iv.1 (fun x => l.a x * iv.2 x))
+        ((iv.1 + rot) % nidx) (fun x => l.b x * iv.2 ((x + rot) % len)))
+      ((iv.1 + (nidx - rot)) % nidx) (fun x => l.c x * iv.2 ((x + (len - rot)) % len))) []
+
+def mergeLayers2 {α : Type} [Add α] [Mul α] (nidx len : Nat) (layer : Nat → Layer α) :
+    (cnt : Nat) → (nextLevel : Nat) → DiagMat α → DiagMat α
+  | 0, _, vec => vec
+  | c + 1, nl, vec => mergeLayers2 nidx len layer c (nl - 1) (mulNextLayer2 nidx len vec (layer nl))
+
+/-- `genRepackMatrix`: diagonal 0 = `[1,…,1, i,…,i]`, diagonal `slots` = `[i,…,i, 1,…,1]` -/
+def repackDiag {α : Type} (slots : Nat) (one imag : α) : DiagMat α :=
+  [(0, fun x => if x < slots then one else imag), (slots, fun x => if x < slots then imag else one)]
+
+/-- the loop of `GenMatrices` over the merge schedule; `special` = repacking first matrix of a sparse Decode -/
+def factorMats2 {α : Type} [Add α] [Mul α] (slots len : Nat) (one imag : α) (layer : Nat → Layer α) :
+    (special : Bool) → (level : Nat) → List Nat → List (DiagMat α)
+  | _, _, [] => []
+  | special, level, m :: ms =>
+    (if special then
+        mergeLayers2 (2 * slots) len layer (m - 1) (level - 1)
+          (mulNextLayer2 (2 * slots) len (repackDiag slots one imag) (layer level))
+      else mergeLayers2 slots len layer (m - 1) (level - 1) (layerDiag slots (layer level)))
+    :: factorMats2 slots len one imag layer false (level - m) ms
+
+/-- `MatrixLiteral.GenMatrices(LogN, prec)` before the scaling, for every format. -/
+def genMatricesFull {α : Type} [Add α] [Mul α] (d : MatLit) (logN : Nat) (zero one imag : α)
+    (layer : Nat → Layer α) : List (DiagMat α) :=
+  let slots := 2 ^ d.logSlots
+  let dbl := d.sparseRepack logN
+  let len := if dbl then 2 * slots else slots
+  let ms := factorMats2 slots len one imag layer (dbl && !d.encode) d.logSlots (mergeSched d)
+  if dbl && d.encode then
+    -- repacking after the IDFT: the right half of every diagonal of the last matrix is zeroed
+    match ms.reverse with
+    | [] => []
+    | last :: front => (front.reverse ++ [last.map fun iv => (iv.1, fun x => if x % len < slots then iv.2 x else zero)])
+  else ms
+
 end Lattigo.Model.Bootstrap
